@@ -204,6 +204,9 @@ impl DatabaseCheckpoint {
 		// Step 7: Copy VLog directories if enabled
 		let vlog_size = self.copy_vlog_directories(checkpoint_path)?;
 
+		// Step 7b: Copy the versioned index (the B+tree that answers history queries)
+		let vlog_size = vlog_size + self.copy_versioned_index(checkpoint_path)?;
+
 		// Step 8: Create checkpoint metadata
 		let timestamp = SystemTime::now().duration_since(UNIX_EPOCH).unwrap().as_secs();
 
@@ -260,6 +263,9 @@ impl DatabaseCheckpoint {
 
 		// Restore VLog directories if they exist in the checkpoint
 		self.restore_vlog_directories(checkpoint_path)?;
+
+		// Restore the versioned index
+		self.restore_versioned_index(checkpoint_path)?;
 
 		Ok(metadata)
 	}
@@ -370,6 +376,46 @@ impl DatabaseCheckpoint {
 		}
 
 		Ok(total_size)
+	}
+
+	/// Copies the versioned index (B+tree) to the checkpoint directory if it is enabled.
+	/// The index lock keeps a flush from writing to the file while it is copied.
+	fn copy_versioned_index(&self, dest_dir: &Path) -> Result<u64> {
+		let Some(ref versioned_index) = self.core.versioned_index else {
+			return Ok(0);
+		};
+		let _guard = versioned_index.read();
+
+		let source = self.core.opts.versioned_index_dir();
+		let dest = dest_dir.join("versioned_index");
+		if source.exists() {
+			copy_dir_all(&source, &dest).map_err(|e| Error::Io(Arc::new(e)))?;
+			return Self::calculate_directory_size(&dest);
+		}
+
+		Ok(0)
+	}
+
+	/// Replaces the versioned index file by the checkpoint's. The entries of the current
+	/// index point into value-log files of the timeline being discarded, so it is removed
+	/// even when the checkpoint has none (the index then starts empty). The caller reopens
+	/// the B+tree afterwards.
+	fn restore_versioned_index(&self, checkpoint_path: &Path) -> Result<()> {
+		if self.core.versioned_index.is_none() {
+			return Ok(());
+		}
+		let source = checkpoint_path.join("versioned_index");
+		let dest = self.core.opts.versioned_index_dir();
+		if dest.exists() {
+			fs::remove_dir_all(&dest).map_err(|e| Error::Io(Arc::new(e)))?;
+		}
+		if source.exists() {
+			copy_dir_all(&source, &dest).map_err(|e| Error::Io(Arc::new(e)))?;
+		} else {
+			fs::create_dir_all(&dest).map_err(|e| Error::Io(Arc::new(e)))?;
+		}
+
+		Ok(())
 	}
 
 	/// Calculates the total size of a directory recursively
